@@ -460,10 +460,8 @@ func (wf *Workflow[I, O]) AddBranch(fromNodeKey string, branch *GraphBranch) *Wo
 
 // Deprecated: use *Workflow[I,O].End() to obtain a WorkflowNode instance for END, then work with it just like a normal WorkflowNode.
 func (wf *Workflow[I, O]) AddEnd(fromNodeKey string, inputs ...*FieldMapping) *Workflow[I, O] {
-	for _, input := range inputs {
-		input.fromNodeKey = fromNodeKey
-	}
-	_ = wf.g.addEdgeWithMappings(fromNodeKey, END, false, false, inputs...)
+	// like End().AddInput: the target paths go through END's overlap check with everything else mapped to END
+	wf.End().AddInput(fromNodeKey, inputs...)
 	return wf
 }
 
